@@ -443,6 +443,31 @@ func onlyFacts(facts map[string]bool, allowed ...string) string {
 	return ""
 }
 
+// sortsInPlace: a library sort call, or a call to a module helper that sorts one of its slice parameters in place.
+func (c *Ctx) sortsInPlace(call ssa.CallInstruction, d int) bool {
+	switch calleeFullName(call.Common()) {
+	case "sort.Slice", "sort.SliceStable", "sort.Strings", "sort.Sort", "sort.Stable", "slices.Sort", "slices.SortFunc", "slices.SortStableFunc":
+		return true
+	}
+	cal := call.Common().StaticCallee()
+	if cal == nil || !c.InModule(cal) || d > 1 || cal.Signature.Results().Len() != 0 {
+		return false
+	}
+	for _, inner := range callsIn(cal) {
+		if !c.sortsInPlace(inner, d+1) || len(inner.Common().Args) == 0 {
+			continue
+		}
+		arg := inner.Common().Args[0]
+		if mi, ok := arg.(*ssa.MakeInterface); ok {
+			arg = mi.X
+		}
+		if _, isParam := resolve(arg).(*ssa.Parameter); isParam {
+			return true
+		}
+	}
+	return false
+}
+
 func ruleOU7(c *Ctx) {
 	ts := c.ErgoFn("topoSortTasks")
 	if ts == nil {
@@ -451,7 +476,11 @@ func ruleOU7(c *Ctx) {
 	}
 	fn := c.Name(ts)
 	var sortCalls []ssa.CallInstruction
-	sortCalls = append(sortCalls, callsNamed(ts, "sort.Slice", "sort.SliceStable")...)
+	for _, call := range callsIn(ts) {
+		if c.sortsInPlace(call, 0) {
+			sortCalls = append(sortCalls, call)
+		}
+	}
 	sourceOrder(sortCalls)
 	if len(sortCalls) == 0 {
 		c.bad(fn, "kahn", c.FnPos(ts), "normaliser contains no sort: structure not recognised")
